@@ -374,6 +374,28 @@ MUTANTS = [
   "        if kws['material'] is not None:\n            material_id = kws['material']",
   "        if kws['material'] is not None and density is None:\n            material_id = kws['material']"),
  # (C15-6, a lazy 'like.*?but', is equivalent unless 'but' occurs twice)
+ # ---- C16
+ ('C16-1', 'C16', K + 'BoundaryCondition/CConversionBoundaryCondition.py',
+  "            if p_boundCondMCNP == '*':\n                p_typeOfBC = 'REFLECTION'\n            if p_boundCondMCNP == '+':\n                p_typeOfBC = 'COSINUS'",
+  "            if p_boundCondMCNP == '*':\n                p_typeOfBC = 'COSINUS'\n            if p_boundCondMCNP == '+':\n                p_typeOfBC = 'REFLECTION'"),
+ ('C16-2', 'C16', 'MIP/geom/surfaces.py',
+  "re_name = re.compile(r'^([+*]*)(.*)')",
+  "re_name = re.compile(r'^([*]*)[+]?(.*)')"),
+ ('C16-3', 'C16', K + 'FileHandlers/Writer/WriteT4BoundCond.py',
+  "    ofile.write(str(len(bound_conds)))",
+  "    ofile.write(str(len(bound_conds) + 1))"),
+ ('C16-4', 'C16', K + 'FileHandlers/Writer/WriteT4BoundCond.py',
+  "        key = surf_renumbering.get(k, k)",
+  "        key = k"),
+ ('C16-5', 'C16', K + 'FileHandlers/Writer/WriteT4BoundCond.py',
+  "        if key in surf_used and entry not in bound_conds:",
+  "        if key in surf_used:"),
+ ('C16-6', 'C16', K + 'BoundaryCondition/CConversionBoundaryCondition.py',
+  "                if len(v) > 1:",
+  "                if len(v) > 6:"),
+ ('C16-7', 'C16', K + 'BoundaryCondition/CConversionBoundaryCondition.py',
+  "            if v[0][0].boundary_cond != '':",
+  "            if v[0][0].boundary_cond == '*':"),
 ]
 
 
